@@ -550,8 +550,16 @@ func cmdRun(args []string) int {
 	}
 	var mu sync.Mutex
 	queue := []Task{}
+	var dbgPrefix []uint64
+	if dp := os.Getenv("GOSYM_PREFIX"); dp != "" {
+		for _, f := range strings.Split(dp, ",") {
+			var v uint64
+			fmt.Sscan(f, &v)
+			dbgPrefix = append(dbgPrefix, v)
+		}
+	}
 	for _, o := range obs {
-		queue = append(queue, Task{ob: o})
+		queue = append(queue, Task{ob: o, prefix: dbgPrefix})
 	}
 	pending := 0
 	cond := sync.NewCond(&mu)
